@@ -174,7 +174,7 @@ Proof.
     all: try (intros _; exact I).
   - unfold step_wtakeack. destruct (writer s), (ackq s); split; try apply ce_refl; now left.
   - unfold step_wwritehdr. destruct (writer s); try (split; [apply ce_refl|now left]).
-    destruct (f_typ _ =? _); [|destruct (f_len _ =? _)]; split; try apply ce_refl; now left.
+    destruct (f_len _ =? _); split; try apply ce_refl; now left.
   - unfold step_wwritepay. destruct (writer s); split; try apply ce_refl; now left.
   - unfold step_writefail. destruct (writer s); try (split; [apply ce_refl|now left]).
     + destruct (k <? header_sz); split; try apply ce_refl; now left.
